@@ -166,13 +166,13 @@ def _gen_env(r, variant, flags):
     if flags['extra'] and (not flags['vary'] or r.random() < 0.5):
         cfg.append(['extra', 900 + variant])         # programs read it: NameError in the builds that lack it
     r.shuffle(cfg)
-    syms = {'s1': {'k': 'val', 'v': 10 * (variant + 1)}, 'scale': {'k': 'fun', 'mul': 2 + variant, 'add': variant},
+    syms = {'__dsym': {'k': 'val', 'v': 70 + variant}, 's1': {'k': 'val', 'v': 10 * (variant + 1)}, 'scale': {'k': 'fun', 'mul': 2 + variant, 'add': variant},
             'ctxm': {'k': 'cm', 'd': variant}}
     if flags['shared'] and r.random() < 0.6:
         syms['shared'] = {'k': 'val', 'v': 1000 + variant}     # a symbol shadows the config entry of the same name
     if r.random() < 0.2:
         syms['ca'] = {'k': 'val', 'v': 500 + variant}
-    env = {'_cu': 'int', '__cv': 'int', 'ca': 'int', 'cb': 'int', 'cs': 'str', 'cflag': 'bool', 'cl': 'list', 'cm': 'map', 'cz': 'int', 's1': 'int', 'scale': 'fun1', 'ctxm': 'cm'}
+    env = {'__dsym': 'int', '_cu': 'int', '__cv': 'int', 'ca': 'int', 'cb': 'int', 'cs': 'str', 'cflag': 'bool', 'cl': 'list', 'cm': 'map', 'cz': 'int', 's1': 'int', 'scale': 'fun1', 'ctxm': 'cm'}
     for k, v in cfg:
         if k in ('max', 'shared', 'extra'):
             env[k] = 'int'
@@ -492,6 +492,11 @@ def _stmt_groups(lines):
     n = len(lines) - 1
     while i < n:
         j = i + 1
+        if lines[i].count("'''") == 1 or lines[i].count('"""') == 1:      # an open multi-line literal: up to its closing line
+            q3 = "'''" if lines[i].count("'''") == 1 else '"""'
+            while j < n and q3 not in lines[j]:
+                j += 1
+            j = min(n, j + 1)
         while j < n and (lines[j].startswith(' ') or lines[j].startswith('else') or lines[j].startswith('elif') or lines[j].startswith('except') or lines[j].startswith('finally')):
             j += 1
         groups.append((i, j))
@@ -551,7 +556,8 @@ def reach_problems(stats, tier):
     probs = []
     for need in ('build_reusing_path_and_code', 'no_file_name', 'node:eval', 'node:fstr', 'node:fstr_implicit', 'program:def', 'program:closure',
                  'program:comprehension', 'program:try', 'program:with', 'program:import', 'program:extended_arg', 'program:for', 'program:while',
-                 'program:lambda', 'program:global_stmt', 'program:error', 'program:annotations', 'program:callable_value'):
+                 'program:lambda', 'program:global_stmt', 'program:error', 'program:annotations', 'program:callable_value',
+                 'program:multiline_literal'):
         if not pr.get(need):
             probs.append(f'probe {need} never fired')
     if not stats.get('faults', {}).get('user_code_raises'):
